@@ -554,9 +554,16 @@ pub fn cmd_tamper(args: &[String]) {
             if let Some(a) = &ad { for byte in 0..a.len() { for bit in 0..8 { let mut x = a.clone(); x[byte] ^= 1 << bit; fam.push((key, header, c.clone(), Some(x), format!("AD byte {} bit {}", byte, bit), "flip AD")); } } }
             for n in 1..=c.len() { if thin && ![1usize, 16, 17, c.len() / 2, c.len() - 17, c.len()].contains(&n) { continue; } fam.push((key, header, c[..c.len() - n].to_vec(), ad.clone(), format!("truncated by {} (to {} bytes)", n, c.len() - n), "truncate")); }
             for n in 1..=40usize { if thin && n != 1 && n != 16 { continue; } let mut x = c.clone(); x.extend(rng.bytes(n)); fam.push((key, header, x, ad.clone(), format!("extended by {}", n), "extend")); }
-            for (k, h, x, a, how, kind) in fam.iter() {
+            for (fi_, (k, h, x, a, how, kind)) in fam.iter().enumerate() {
                 // classic pull
                 rep.evaluations += 1;
+                // now and then the genuine stream is opened (and its message pulled) first: whatever an implementation remembers
+                // from that - a subkey, a header - must not make the tampered presentation that follows acceptable
+                if *kind != "none" && fi_ % 3 == 1 {
+                    let mut g = fresh_pull(&key, &header);
+                    let mut gm = vec![0u8; c.len() - ABYTES]; let mut gt = 0u8;
+                    let _ = catch(|| cs::crypto_secretstream_xchacha20poly1305_pull(&mut g, &mut gm, &mut gt, &c, ad.as_deref()));
+                }
                 let mut d = fresh_pull(k, h);
                 let before = d.clone();
                 let canary: Vec<u8> = (0..x.len().saturating_sub(ABYTES)).map(|i| 0xC5u8 ^ (i as u8)).collect();
